@@ -223,6 +223,27 @@ type schedRun struct {
 	cmds        []ConcCmd
 	actions     []SchedAction
 	lockOverlap bool // some command ran while another was parked inside its lock section
+	// mutex: a command changed the log while another one was stopped inside its lock section
+	// (exclusive flock taken on a descriptor that is still open, not yet released)
+	mutex []string
+}
+
+// holdsLock says whether a process whose trace is calls holds the exclusive flock right
+// now: its last successful LOCK_EX on a descriptor that was neither unlocked nor closed.
+func holdsLock(calls []TraceCall) bool {
+	held := ""
+	for _, c := range calls {
+		fd := strings.TrimSpace(strings.SplitN(c.Args, ",", 2)[0])
+		switch {
+		case c.Name == "flock" && strings.Contains(c.Args, "LOCK_EX") && strings.HasPrefix(c.Ret, "0"):
+			held = fd
+		case c.Name == "flock" && strings.Contains(c.Args, "LOCK_UN") && fd == held:
+			held = ""
+		case c.Name == "close" && fd == held:
+			held = ""
+		}
+	}
+	return held != ""
 }
 
 const hangLimit = 25 * time.Second
@@ -238,20 +259,23 @@ func (w *World) runSchedule(cmds []ConcCmd, actions []SchedAction) schedRun {
 				continue
 			}
 			calls, _, _ := ParseTrace(p.traceRaw())
-			held := false
-			for _, c := range calls {
-				if c.Name == "flock" && strings.Contains(c.Args, "LOCK_EX") && strings.HasPrefix(c.Ret, "0") {
-					held = true
-				}
-				if c.Name == "flock" && strings.Contains(c.Args, "LOCK_UN") {
-					held = false
-				}
-			}
-			if held {
+			if holdsLock(calls) {
 				return true
 			}
 		}
 		return false
+	}
+	holderOtherThan := func(i int) int {
+		for j, p := range procs {
+			if j == i || p == nil || cmds[j].End > 0 {
+				continue
+			}
+			calls, _, _ := ParseTrace(p.traceRaw())
+			if holdsLock(calls) {
+				return j
+			}
+		}
+		return -1
 	}
 	finish := func(i int, exited bool, hung bool) {
 		if !exited && !hung {
@@ -301,6 +325,9 @@ func (w *World) runSchedule(cmds []ConcCmd, actions []SchedAction) schedRun {
 				}
 			}
 			lastLog = now
+			if j := holderOtherThan(i); j >= 0 {
+				sr.mutex = append(sr.mutex, fmt.Sprintf("`%s` changed the log while `%s` was stopped inside its lock section (exclusive flock held, not released)", strings.Join(cmds[i].cmd.Args, " "), strings.Join(cmds[j].cmd.Args, " ")))
+			}
 			if cmds[i].Commit == 0 {
 				clock++
 				cmds[i].Commit = clock
